@@ -363,34 +363,35 @@ Section Interpret.
   Qed.
 
   Lemma model_first_limit_ok E l m : nodupb (map fst (l_model_params l)) = true -> interpret_model F T E l = Some m ->
-    exists r, (match mb_kind m with MKCatchment => first_limit limit_keys (mb_params m) | _ => Ok None end) = Ok r.
+    mb_kind m = MKCatchment -> exists r, first_limit limit_keys (mb_params m) = Ok r.
   Proof.
-    intros Hu Hm. destruct tables_parts as (_ & _ & _ & HL).
-    destruct (mb_kind m) eqn:K; try (eexists; reflexivity).
+    intros Hu Hm K. destruct tables_parts as (_ & _ & _ & HL).
     destruct (model_params_shape E l m Hm) as [[K' _]| ->]; [congruence|]. rewrite K. cbn [model_table].
     apply first_limit_ok; [apply nodup_table; simpl; auto 10|exact Hu|exact HL].
   Qed.
 
-  Ltac finish_out := repeat match goal with
-                            | |- context [match ?l ++ ?m with _ => _ end] => destruct (l ++ m)
-                            | |- context [if ?b then _ else _] => destruct b
-                            end; discriminate.
+  Lemma model_part_ok E l : nodupb (map fst (l_model_params l)) = true -> interpret_env_ok F T E l = true ->
+    exists mp, interpret_model_part F T E l = Ok mp.
+  Proof.
+    intros Hu Henv. unfold interpret_model_part, interpret_env_ok in *.
+    destruct (interpret_model F T E l) as [m|] eqn:Hm; [|eexists; reflexivity].
+    destruct (mb_errors m); [|eexists; reflexivity].
+    destruct (mb_kind m) eqn:K; try (eexists; reflexivity).
+    - rewrite Henv. eexists; reflexivity.
+    - destruct (model_first_limit_ok E l m Hu Hm K) as [lim ->].
+      destruct (data_of E m); try (eexists; reflexivity).
+      destruct (match lim with Some _ => _ | None => false end); eexists; reflexivity.
+  Qed.
 
   Theorem interpret_never_crashes : forall E l,
     nodupb (map fst (l_annealer_params l)) = true -> nodupb (map fst (l_model_params l)) = true ->
     interpret_env_ok F T E l = true -> interpret F T E l <> Crash.
   Proof.
     intros E l Hua Hum Henv. unfold interpret.
+    destruct (model_part_ok E l Hum Henv) as [mp ->].
     destruct (assoc (l_annealer_type l) (f_annealers F)) as [[|f]|]; try discriminate.
     destruct (annealer_getters_ok E l f Hua) as (z & dv & Hz & Hdv). rewrite Hz, Hdv.
-    destruct (interpret_model F T E l) as [m|] eqn:Hm; [|discriminate].
-    unfold interpret_env_ok in Henv. rewrite Hm in Henv.
-    destruct (model_first_limit_ok E l m Hum Hm) as [lim Hlim]. rewrite Hlim.
-    destruct (mb_kind m) eqn:K.
-    - rewrite andb_false_r. cbn match. rewrite !andb_false_r. finish_out.
-    - rewrite andb_false_r. cbn match. rewrite !andb_false_r. finish_out.
-    - rewrite Henv. cbn [negb]. rewrite andb_false_r. cbn match. rewrite !andb_false_r. finish_out.
-    - rewrite andb_false_r. destruct (data_of E m); try discriminate Henv; rewrite !andb_false_r; finish_out.
+    destruct (mp_errs mp ++ _); destruct (mp_model mp); discriminate.
   Qed.
 End Interpret.
 
@@ -415,35 +416,92 @@ Proof.
   intro H. inversion H; subst. split; [reflexivity|]. now apply app_eq_nil in E.
 Qed.
 
+(* from the loader's checks: at least one run, fewer than 2^63 (no negative TOML integer), a positive reporting modulo *)
 Lemma accepted_counts F c l : facts_ok F = true -> load F c = Done l ->
-  (1 <= l_run_number l)%Z /\ (1 <= l_report_every l)%Z.
+  (1 <= l_run_number l < two63)%Z /\ (1 <= l_report_every l)%Z.
 Proof.
   intros HF HL. destruct (load_done F c l HL) as [_ Hm].
   unfold facts_ok in HF. apply andb_true_iff in HF as [HF _]. apply andb_true_iff in HF as [HF _].
-  apply andb_true_iff in HF as [H1 H2].
+  apply andb_true_iff in HF as [HF H2]. apply andb_true_iff in HF as [H1 H3].
   apply existsb_exists in H1 as (m1 & In1 & R1). apply existsb_exists in H2 as (m2 & In2 & R2).
+  apply existsb_exists in H3 as (m3 & In3 & R3).
   pose proof (mandatory_none_fires F l Hm m1 In1) as F1. pose proof (mandatory_none_fires F l Hm m2 In2) as F2.
-  destruct m1 as [|p1 k1|]; try discriminate. destruct m2 as [|p2 k2|]; try discriminate.
-  cbn [requires_at_least_one] in R1, R2.
-  apply andb_true_iff in R1 as [P1 K1]. apply andb_true_iff in R2 as [P2 K2].
-  apply String.eqb_eq in P1. apply String.eqb_eq in P2. subst p1 p2.
-  cbn in F1, F2. apply Z.ltb_ge in F1. apply Z.ltb_ge in F2. apply Z.leb_le in K1. apply Z.leb_le in K2. lia.
+  pose proof (mandatory_none_fires F l Hm m3 In3) as F3.
+  destruct m1 as [|p1 k1| |]; try discriminate. destruct m2 as [|p2 k2| |]; try discriminate.
+  destruct m3 as [| |p3 k3|]; try discriminate.
+  cbn [requires_at_least_one refuses_negative] in R1, R2, R3.
+  apply andb_true_iff in R1 as [P1 K1]. apply andb_true_iff in R2 as [P2 K2]. apply andb_true_iff in R3 as [P3 K3].
+  apply String.eqb_eq in P1. apply String.eqb_eq in P2. apply String.eqb_eq in P3. subst p1 p2 p3.
+  cbn in F1, F2, F3. apply Z.ltb_ge in F1. apply Z.ltb_ge in F2. apply Z.ltb_ge in F3.
+  apply Z.leb_le in K1. apply Z.leb_le in K2. apply Z.ltb_lt in K3. lia.
 Qed.
 
-Lemma interpret_done F T E l sc : interpret F T E l = Done sc ->
-  s_runs sc = l_run_number l /\ s_modulo sc = l_report_every l.
+(* from the interpreter's checks (C19-4 .. C19-12): what an accepted scenario looks like *)
+Definition accepted_shape (E : env) (l : loaded) (sc : scenario) : Prop :=
+  s_runs sc = l_run_number l /\ s_modulo sc = l_report_every l /\
+  (single_objective (s_family sc) = true -> offers (s_mkind sc) (s_decision_var sc) = true) /\
+  (s_mkind sc = MKCatchment ->
+     exists d0, s_data sc = DataOk d0 /\
+                match s_limit sc with Some _ => limit_binding (with_limit d0 (s_limit sc)) = true | None => True end) /\
+  e_out_is_file E (s_out_path sc) = false /\
+  (s_otype sc = "EXCEL" -> e_excel E = true) /\
+  (s_profile sc <> "" -> e_profile_dir_ok E (s_profile sc) = true).
+
+Lemma model_part_usable F T E l mp m : interpret_model_part F T E l = Ok mp -> mp_model mp = Some m ->
+  match mb_kind m with
+  | MKCatchment => exists d0, mp_data mp = DataOk d0 /\
+                     match mp_limit mp with Some _ => limit_binding (with_limit d0 (mp_limit mp)) = true | None => True end
+  | _ => True
+  end.
+Proof.
+  unfold interpret_model_part. destruct (interpret_model F T E l) as [m0|]; [|intro H; inversion H; subst; discriminate].
+  destruct (mb_errors m0); [|intro H; inversion H; subst; discriminate].
+  destruct (mb_kind m0) eqn:K.
+  - intros H Hm. inversion H; subst. cbn in Hm. inversion Hm; subst. now rewrite K.
+  - intros H Hm. inversion H; subst. cbn in Hm. inversion Hm; subst. now rewrite K.
+  - destruct (e_round_ok E (mb_params m0)); [|discriminate].
+    intros H Hm. inversion H; subst. cbn in Hm. inversion Hm; subst. now rewrite K.
+  - destruct (first_limit limit_keys (mb_params m0)) as [lim|]; [|discriminate].
+    destruct (data_of E m0) as [| |d0]; try (intros H Hm; inversion H; subst; discriminate).
+    destruct lim as [lm|].
+    + destruct (limit_binding (with_limit d0 (Some lm))) eqn:B; cbn [negb];
+        intros H Hm; inversion H; subst; cbn in Hm; [|discriminate].
+      inversion Hm; subst. rewrite K. exists d0. cbn. auto.
+    + intros H Hm. inversion H; subst. cbn in Hm. inversion Hm; subst. rewrite K. exists d0. cbn. auto.
+Qed.
+
+Lemma interpret_done F T E l sc : interpret F T E l = Done sc -> accepted_shape E l sc.
 Proof.
   unfold interpret.
+  destruct (interpret_model_part F T E l) as [mp|] eqn:MP; [|discriminate].
   destruct (assoc (l_annealer_type l) (f_annealers F)) as [[|f]|]; try discriminate.
-  destruct (interpret_model F T E l) as [m|];
-    destruct (ab_iterations (interpret_annealer T E l f)); destruct (ab_decision_var (interpret_annealer T E l f)); try discriminate.
-  all: repeat match goal with
-         | |- context [if ?b then _ else _] => destruct b; try discriminate
-         end.
-  all: destruct (match mb_kind m with MKCatchment => first_limit limit_keys (mb_params m) | _ => Ok None end); [|discriminate].
-  all: match goal with |- context [match ?x ++ ?y with _ => _ end] => destruct (x ++ y) end; [|discriminate].
-  all: intro H; inversion H; subst; cbn [s_runs s_modulo]; auto.
+  destruct (ab_iterations (interpret_annealer T E l f)) as [n|]; [|discriminate].
+  destruct (ab_decision_var (interpret_annealer T E l f)) as [dv|]; [|discriminate].
+  destruct (mp_errs mp ++ ab_errors (interpret_annealer T E l f)
+            ++ decision_variable_errors mp (interpret_annealer T E l f) dv ++ scenario_errors F E l) eqn:ES; [|discriminate].
+  destruct (mp_model mp) as [m|] eqn:MM; [|discriminate].
+  intro H. inversion H; subst. clear H.
+  apply app_eq_nil in ES as [_ ES]. apply app_eq_nil in ES as [EA ES]. apply app_eq_nil in ES as [EDV ESC].
+  unfold accepted_shape. cbn [s_runs s_modulo s_family s_mkind s_decision_var s_data s_limit s_out_path s_otype s_profile].
+  split; [reflexivity|]. split; [reflexivity|].
+  split.
+  { intro SO. unfold decision_variable_errors in EDV. rewrite MM, EA in EDV.
+    assert (ab_family (interpret_annealer T E l f) = f) by reflexivity. rewrite H, SO in EDV. cbn in EDV.
+    destruct (offers (mb_kind m) dv); [reflexivity|discriminate]. }
+  split.
+  { intro K. pose proof (model_part_usable F T E l mp m MP MM) as U. rewrite K in U. exact U. }
+  unfold scenario_errors in ESC.
+  apply app_eq_nil in ESC as [_ ESC]. apply app_eq_nil in ESC as [_ ESC]. apply app_eq_nil in ESC as [E1 ESC].
+  apply app_eq_nil in ESC as [E2 E3].
+  split; [destruct (e_out_is_file E (l_output_path l)); [discriminate|reflexivity]|].
+  split.
+  - intro X. rewrite X in E2. cbn in E2. destruct (e_excel E); [reflexivity|discriminate].
+  - intro X. destruct (l_cpu_profile l =? "") eqn:Q; [apply String.eqb_eq in Q; contradiction|].
+    cbn in E3. destruct (e_profile_dir_ok E (l_cpu_profile l)); [reflexivity|discriminate].
 Qed.
+
+Lemma offers_exists k name : offers k name = true -> variable_exists k name = true.
+Proof. destruct k; simpl; auto. Qed.
 
 (* ---- the observers never panic once the modulo is positive ---- *)
 Lemma observers_fine sc e cur : (1 <= s_modulo sc)%Z -> observers_ok sc e cur = true.
@@ -474,48 +532,48 @@ Qed.
 (* ============================================================================================================ *)
 Lemma run_tail_completes E sc r T0 a :
   (1 <= s_modulo sc)%Z ->
-  (negb (single_objective (s_family sc)) || variable_exists (s_mkind sc) (s_decision_var sc)) = true ->
+  (single_objective (s_family sc) = true -> offers (s_mkind sc) (s_decision_var sc) = true) ->
   e_out_usable E (s_out_path sc) = true ->
-  (match otype_ext (s_otype sc) with Some _ => true | None => e_excel E end) = true ->
+  (s_otype sc = "EXCEL" -> e_excel E = true) ->
   no_nl (s_name sc) = true ->
   exists f, run_tail E sc r None T0 a = R1Files f.
 Proof.
   intros Hm Hv Hout Hx Hn. unfold run_tail.
   assert (V : single_objective (s_family sc) && negb (variable_exists (s_mkind sc) (s_decision_var sc)) = false).
-  { destruct (single_objective (s_family sc)); simpl in *; [now rewrite Hv|reflexivity]. }
+  { destruct (single_objective (s_family sc)); simpl in *; [now rewrite (offers_exists _ _ (Hv eq_refl))|reflexivity]. }
   rewrite V. rewrite !(observers_fine sc _ _ Hm). cbn [negb].
   rewrite elapsed_finishes by (intros j _; rewrite !(observers_fine sc _ _ Hm); reflexivity).
   rewrite Hout. cbn [negb].
-  destruct (otype_ext (s_otype sc)) as [ext|].
-  - rewrite (json_name_ok _ _ _ Hn). cbn [negb]. rewrite andb_false_r. eexists; reflexivity.
-  - rewrite Hx. eexists; reflexivity.
+  unfold encoder_of. destruct (s_otype sc =? "JSON").
+  - rewrite (json_name_ok _ _ _ Hn). eexists; reflexivity.
+  - destruct ((s_otype sc =? "CSV") || (s_otype sc =? "")); [eexists; reflexivity|].
+    destruct (s_otype sc =? "EXCEL") eqn:X; [|eexists; reflexivity].
+    apply String.eqb_eq in X. rewrite (Hx X). eexists; reflexivity.
 Qed.
 
 Lemma Forall_firstn {A} (P : A -> Prop) (l : list A) k : Forall P l -> Forall P (firstn k l).
 Proof. revert l. induction k as [|k IH]; intros l H; [constructor|]. destruct l; [constructor|]. inversion H; subst. constructor; auto. Qed.
 
-Lemma run_one_completes E sc r ch T0 a :
-  (1 <= s_modulo sc)%Z -> run_preconditions E sc = true ->
+Lemma run_one_completes E l sc r ch T0 a :
+  (1 <= s_modulo sc)%Z -> accepted_shape E l sc -> run_preconditions E sc = true ->
   match dataset_of sc with Some d => choice_ok d ch | None => True end ->
   exists f, run_one E sc r ch T0 a = R1Files f.
 Proof.
-  intros Hm Hp Hc. unfold run_preconditions in Hp.
+  intros Hm (_ & _ & Hv & Hd & _ & Hx & _) Hp Hc. unfold run_preconditions in Hp.
   repeat match type of Hp with (_ && _ = true) => let H := fresh "P" in apply andb_true_iff in Hp as [Hp H] end.
   unfold run_one, dataset_of in *.
-  destruct (s_mkind sc) eqn:K; [discriminate Hp| | |].
-  - apply run_tail_completes; rewrite ?K; assumption.
-  - apply run_tail_completes; rewrite ?K; assumption.
-  - destruct (s_data sc) as [| |d0]; try discriminate P5.
-    apply andb_true_iff in P5 as [Hwf0 Hlim].
-    set (d := with_limit d0 (s_limit sc)) in *.
-    assert (Hwf : wf_dataset d = true) by (unfold d; now rewrite wf_with_limit).
-    assert (HL : limit_fine d).
-    { unfold limit_fine, d. cbn [with_limit d_limit]. unfold limit_ok in Hlim. destruct (s_limit sc); [|exact I].
-      apply andb_true_iff in Hlim. exact Hlim. }
-    destruct Hc as (Hp0 & Hf0 & Hit).
-    destruct (c_init_ok d Hwf (ch_picks0 ch) HL Hp0 Hf0) as (c & -> & HC).
-    rewrite (c_iters_ok d Hwf (s_family sc) _ c 1%nat HL HC (Forall_firstn _ _ _ Hit)).
-    apply run_tail_completes; rewrite ?K; assumption.
+  destruct (s_mkind sc) eqn:K; try (apply run_tail_completes; rewrite ?K; assumption).
+  destruct (Hd eq_refl) as (d0 & D & B). rewrite D in *.
+  apply andb_true_iff in Hp as [Hwf0 Hatt].
+  set (d := with_limit d0 (s_limit sc)) in *.
+  assert (Hwf : wf_dataset d = true) by (unfold d; now rewrite wf_with_limit).
+  assert (HL : limit_fine d).
+  { unfold limit_fine, d. cbn [with_limit d_limit]. unfold limit_attainable in Hatt. destruct (s_limit sc); [|exact I].
+    split; assumption. }
+  destruct Hc as (Hp0 & Hf0 & Hit).
+  destruct (c_init_ok d Hwf (ch_picks0 ch) HL Hp0 Hf0) as (c & -> & HC).
+  rewrite (c_iters_ok d Hwf (s_family sc) _ c 1%nat HL HC (Forall_firstn _ _ _ Hit)).
+  apply run_tail_completes; rewrite ?K; assumption.
 Qed.
 
 Lemma run_all_completes E sc choices T0 a : forall rs,
@@ -530,24 +588,21 @@ Qed.
 Theorem accepted_runs : forall F T, facts_ok F = true -> tables_ok T = true ->
   forall E c l sc choices T0 a,
   load F c = Done l -> interpret F T E l = Done sc ->
-  nodupb (map fst (l_annealer_params l)) = true -> nodupb (map fst (l_model_params l)) = true ->
   run_preconditions E sc = true -> choices_ok sc choices ->
   exists summaries, run_model E sc choices T0 a = Completed summaries /\ List.length summaries = Z.to_nat (l_run_number l)
                     /\ (1 <= l_run_number l)%Z.
 Proof.
-  intros F T HF HT E c l sc choices T0 a HL HI _ _ HP HC.
+  intros F T HF HT E c l sc choices T0 a HL HI HP HC.
   destruct (accepted_counts F c l HF HL) as [HR HM].
-  destruct (interpret_done F T E l sc HI) as [ER EM].
+  pose proof (interpret_done F T E l sc HI) as SH. destruct SH as (ER & EM & SH').
   pose proof HP as HP'. unfold run_preconditions in HP'.
   repeat match type of HP' with (_ && _ = true) => let H := fresh "P" in apply andb_true_iff in HP' as [HP' H] end.
   unfold run_model.
   replace (negb (s_profile sc =? "") && negb (e_profile_ok E (s_profile sc))) with false
-    by (destruct (s_profile sc =? ""); simpl in *; [reflexivity|now rewrite P3]).
-  apply Z.ltb_lt in P0, P1.
-  replace (two63 <=? s_concurrent sc)%Z with false by (symmetry; apply Z.leb_gt; exact P0).
-  replace (two63 <=? s_runs sc)%Z with false by (symmetry; apply Z.leb_gt; exact P1).
+    by (destruct (s_profile sc =? ""); simpl in *; [reflexivity|now rewrite P0]).
+  replace (two63 <=? s_runs sc)%Z with false by (symmetry; apply Z.leb_gt; rewrite ER; lia).
   destruct (run_all_completes E sc choices T0 a (seq 1 (Z.to_nat (s_runs sc)))) as (fs & -> & Len).
-  - intro r. apply run_one_completes; [rewrite EM; exact HM|exact HP|].
+  - intro r. apply (run_one_completes E l); [rewrite EM; exact HM|exact (conj ER (conj EM SH'))|exact HP|].
     unfold choices_ok in HC. destruct (dataset_of sc); [apply HC|exact I].
-  - exists fs. rewrite seq_length in Len. rewrite ER in Len. auto.
+  - exists fs. rewrite seq_length in Len. rewrite ER in Len. split; [reflexivity|]. split; [exact Len|lia].
 Qed.
